@@ -484,7 +484,7 @@ func TestVerifHarnessC02(t *testing.T) {
 	// phase 1: tiny datasets over columns a,b — all sequences of length <= L, random longer ones
 	L, nRand, nExprRandom := 2, 60, 6
 	if thorough {
-		L, nRand, nExprRandom = 3, 2500, 25
+		L, nRand, nExprRandom = 3, 1000, 20
 	}
 	tinyQ := c02TinyQueries(seed, nExprRandom)
 	var plans []*c02Plan
